@@ -65,7 +65,10 @@ type vfC05Program struct {
 	Rounds  int         `json:"rounds"`
 }
 
-var vfC05Names = []string{"ads.test.", "x.ads.test.", "ok.ads.test.", "host.example.", "free.example.", "4chan.org.", "rw.example.", "cn.rw.example.", "Blocked.Access."}
+var vfC05Names = []string{"ads.test.", "x.ads.test.", "ok.ads.test.", "host.example.", "free.example.", "4chan.org.", "rw.example.", "cn.rw.example.", "Blocked.Access.",
+	// blocked by the safe-browsing and the parental-control service: the reply
+	// is built from a lookup of the service's block host
+	"malware.sb.example.", "www.adult.pc.example."}
 
 func vfC05DrawQuery(t *rapid.T, label string) (op vfC05Op) {
 	op.Kind = "query"
@@ -297,6 +300,7 @@ func vfNewC05Env() (e *vfC05Env, err error) {
 		Rewrites:          []*filtering.LegacyRewrite{{Domain: "rw.example", Answer: "10.1.1.1"}},
 		ProtectionEnabled: true, FilteringEnabled: true, ServiceIDs: []string{"4chan"}, ServerName: "dns.vf.test",
 		WithLogStats: true, WithSafeSearch: true, QLogMemSize: 8, HTTPRegister: reg, SafeFS: []string{filepath.Join(listDir, "*")},
+		SafeBrowsingEnabled: true, ParentalEnabled: true, SBHosts: []string{"malware.sb.example"}, PCHosts: []string{"adult.pc.example"},
 		Clients: []*client.Persistent{{
 			Name: "kid", UID: client.MustNewUID(), ClientIDs: []string{"kid"}, IPs: []netip.Addr{netip.MustParseAddr("192.0.2.10")},
 			UseOwnSettings: true, FilteringEnabled: true, BlockedServices: &filtering.BlockedServices{Schedule: vfEmptyWeek()},
@@ -322,11 +326,24 @@ func vfNewC05Env() (e *vfC05Env, err error) {
 			if storage == nil {
 				return nil, nil
 			}
+			// what home's findMultiple / clientOrArtificial do for the query
+			// log: the persistent client, else an artificial one, and in both
+			// cases whether the access settings exclude the client
 			for _, id := range ids {
 				ip, _ := netip.ParseAddr(id)
 				if p, ok := storage.FindLoose(ip, id); ok {
-					return &querylog.Client{Name: p.Name, IgnoreQueryLog: p.IgnoreQueryLog}, nil
+					qc = &querylog.Client{Name: p.Name, IgnoreQueryLog: p.IgnoreQueryLog}
+					qc.Disallowed, qc.DisallowedRule = e.w.srv.IsBlockedClient(ip, id)
+
+					return qc, nil
 				}
+			}
+			if len(ids) > 0 && e.ready.Load() {
+				ip, _ := netip.ParseAddr(ids[len(ids)-1])
+				qc = &querylog.Client{}
+				qc.Disallowed, qc.DisallowedRule = e.w.srv.IsBlockedClient(ip, ids[0])
+
+				return qc, nil
 			}
 
 			return nil, nil
